@@ -30,7 +30,7 @@ for feat in spec.get("feats", ["v3"]):
         elif o.startswith("X "):
             print(o)
 if spec.get("post"):
-    ef, nobs = getattr(scenarios, spec["post"])(outputs, {})
+    ef, nobs = getattr(scenarios, spec["post"])(outputs, {})  # (panel names from ids)
     for (f_, sid, d) in ef:
         site = re.search(r"site=(\S+)", d).group(1); reason = re.search(r"reason=(\S+)", d).group(1)
         fails[(site, reason)] += 1; ex.setdefault((site, reason), sid + " " + d)
